@@ -61,15 +61,25 @@ def _chain(t: Term):
         return
 
 
+def _draw_methods(ctx: Ctx, c) -> list:
+    """The methods of a sampler class, their nested functions, and the private module-level functions
+    of its module that they call (a draw may live in any of them)."""
+    methods = list(c.methods.values())
+    for m in list(methods):
+        methods += list(m.nested.values())
+    for g in ctx.cg.reachable(list(c.methods.values()), include_nested_values=False):
+        if g.cls is None and g.outer is None and g.module is c.module and g not in methods:
+            methods.append(g)
+    return methods
+
+
 @rule(P)
 def c17_1(ctx: Ctx) -> RuleResult:
     res = RuleResult("C17.1", "LAYOUT", "each perturbation vector is one point of the QMC sequence: the (n, d) sample is reshaped by splitting the row axis only")
     X = ctx.X
     n_q = n_s = 0
     for c in sampler_impls(ctx):
-        methods = list(c.methods.values())
-        for m in list(methods):
-            methods += list(m.nested.values())
+        methods = _draw_methods(ctx, c)
         for m in methods:
             for call in calls_in(m):
                 t = X.at(m, call)
@@ -127,8 +137,36 @@ def c17_1(ctx: Ctx) -> RuleResult:
                     for k, v in t[3]:
                         if k == "size":
                             size = v
-                    params = m.positional[1:4]
-                    ok = size is not None and size[0] == "tuple" and len(size[1]) == 3 and [s[2] if s[0] == "param" else None for s in size[1]] == params
+                    # the three entries in their roles, whatever the calling context spells them as: the ensemble size (or 1,
+                    # decided in C17.2), the configured number of perturbations, the number of sampled variables
+                    from ..util import context_cases
+
+                    szn = next((k.value for k in call.keywords if k.arg == "size"), None)
+                    ok = False
+                    from ..util import term_cases
+
+                    def comp_cases(i):
+                        """calling-context cases of entry i of the size (None: the size is not a triple)"""
+                        if isinstance(szn, (ast.Tuple, ast.List)):
+                            return context_cases(ctx, m, szn.elts[i]) if len(szn.elts) == 3 else None
+                        out_ = []
+                        for conds, leaf in (context_cases(ctx, m, szn) if szn is not None else []):
+                            if leaf[0] not in ("tuple", "list") or len(leaf[1]) != 3:
+                                return None
+                            out_.extend(term_cases(ctx, tuple(conds), leaf[1][i]))
+                        return out_ or None
+
+                    cc = [comp_cases(i) for i in range(3)]
+                    if all(x is not None for x in cc):
+                        def mentions(cs, *names):
+                            return bool(cs) and all(any(x[0] == "attr" and x[2] in names for x in X.closure(leaf)) for _c, leaf in cs)
+
+                        def never(cs, *names):
+                            return not any(x[0] == "attr" and x[2] in names for _c, leaf in cs for x in X.closure(leaf))
+
+                        ok = (mentions(cc[1], "number_of_perturbations") and never(cc[0], "number_of_perturbations", "mask", "_mask", "variables")
+                              and never(cc[2], "number_of_perturbations", "realizations", "shared")
+                              and never(cc[1], "realizations", "shared", "mask", "_mask"))
                     res.add(m, call, "statistical samples are drawn directly with size=(realizations, perturbations, variables)", ok,
                             "" if ok else f"size is `{show(size, 60) if size else 'missing'}`", construct=f"{c.name}.{m.name}: rvs size")
     if n_q == 0 or n_s == 0:
@@ -148,9 +186,7 @@ def _enclosing_value(ctx: Ctx, m: Func, call: ast.Call) -> Term:
 def _draw_sites(ctx: Ctx, c):
     """[(method, call node, term, kind)] for every draw of the class: `<dist>.rvs(size=...)` / `<engine>.random(n)`."""
     out = []
-    methods = list(c.methods.values())
-    for m in list(methods):
-        methods += list(m.nested.values())
+    methods = _draw_methods(ctx, c)
     for m in methods:
         for call in calls_in(m):
             t = ctx.X.at(m, call)
